@@ -77,6 +77,12 @@ def affine_len(fl, rf, N, allocs):
 
 
 def run(ix, R):
+    _run(ix, R)
+    from rules.common import memo_obligation
+    memo_obligation(ix, R, 'M.memo', ['taurex/data/planet.py', 'taurex/data/profiles/pressure/'], 'the planet and pressure profiles')
+
+
+def _run(ix, R):
     # ---- 1. pressure grid
     site = PP + '::SimplePressureProfile.compute_pressure_profile'
     with R.guard('1.levels', 'ALG', site, 'levels'):
